@@ -51,3 +51,24 @@ func VerifSSHCertValidityValidator(c *Claimer) SSHCertValidator {
 
 // VerifSSHCertDefaultValidator returns &sshCertDefaultValidator{}.
 func VerifSSHCertDefaultValidator() SSHCertValidator { return &sshCertDefaultValidator{} }
+
+// VerifClaimerOf returns the Claimer an initialised provisioner works with (nil when unknown / not initialised).
+func VerifClaimerOf(p Interface) *Claimer {
+	var ctl *Controller
+	switch v := p.(type) {
+	case *JWK:
+		ctl = v.ctl
+	case *X5C:
+		ctl = v.ctl
+	case *ACME:
+		ctl = v.ctl
+	case *SSHPOP:
+		ctl = v.ctl
+	case *Nebula:
+		ctl = v.ctl
+	}
+	if ctl == nil {
+		return nil
+	}
+	return ctl.Claimer
+}
